@@ -132,7 +132,8 @@ def _sub_worker(job):
     os.makedirs(d, exist_ok=True)
     src, ids = modgen.module_source(kinds, layout)
     path = os.path.join(d, 'xdverif_c15_m%d.py' % idx)
-    with open(path, 'w') as f:
+    # every seventh module is saved with a byte-order mark, every eleventh with CRLF line ends (what editors on Windows write)
+    with open(path, 'w', encoding='utf-8-sig' if idx % 7 == 3 else 'utf-8', newline='\r\n' if idx % 11 == 5 else None) as f:
         f.write(src)
     pt, prc, nt, nrc, ptail, ntail = front_ends(path, style, options)
     return dict(kinds=kinds, layout=layout, style=style, options=options, ids=ids, src=src,
